@@ -1,5 +1,7 @@
 import KojenVerif.Lemmas.EngineUserPass
 import KojenVerif.Lemmas.EngineFor
+import KojenVerif.Lemmas.EngineLoadWF
+import KojenVerif.Props.C16
 /-
   C17 — template engine: user tags, IF/ELSEIF/ELSE (and FOR) follow their documented rules.
 
@@ -11,6 +13,18 @@ import KojenVerif.Lemmas.EngineFor
   the driver): literals, tag names and defaults contain no '<' / '>' (`LineOK`), tag names
   contain no '=' (`NamesOK`); a body line carries no control keyword as first word of a tag and
   no `FOR_BEGIN` (`UserPlain`); conditional blocks are not nested.
+
+  Item level and whole files (added later): a FOR block over a literal list or a count is the
+  specification's loop (`C17_for_block_list`, `C17_for_block_count`); the user-tag pass over a file
+  that contains FOR blocks (`C17_user_pass_with_loops`), `do_for` over a file (`C17_for_pass`), the two
+  composed with the second filtering of C16 (`C17_file_pipeline`), and, with the load phase, the
+  whole front half of the generator for a list of template files (`C17_generate`): the code model
+  handed to the preservation pass is, per file, the template with every global tag replaced, every
+  block expanded in place, every conditional resolved, every user tag treated by the rule above,
+  every FOR block unrolled - and nothing else touched.  Outside `C17_generate`'s grammar (`GenOK`,
+  decidable): FOR parameters that are user tags, multi-line global values, two consecutive blank
+  lines after the global replacements (the blank-line filter then leaves empty strings in the line
+  list; its effect is `C16_blank_lines`), EXTENDS / EXCLUDE, rich lines.
 -/
 namespace KojenVerif.C17
 open Engine Str
@@ -133,6 +147,59 @@ theorem C17_for_line (idx : Nat) (item : Str) (hv : Clean (strip item)) (hc : Cl
       Spec.renderLine (Spec.substLine (Spec.byDict (eachKeys idx item)) l) :=
   eachLine_render idx item hv hc hn l h
 
+/-- **A FOR block over a literal list** is the specification's loop: the first FIRST line once with the first
+    item, then for every item in order every other line (EACH / each / NUM / ALPH), then the first LAST line once
+    with the last item.  The values need no hypothesis beyond the parameter being free of angle brackets. -/
+theorem C17_for_block_list (fd ut : List (Str × Str)) (ws raw : Str) (body : List Spec.BItem) (h : LoopOK ws raw body) :
+    forExpand (body.map Spec.BItem.render) raw =
+      (Spec.expandLoop fd ut (.list raw) body).map (fun bs => bs.map Spec.BItem.render) := by
+  have := forExpand_spec fd ut ws raw body h
+  simpa using this
+
+/-- **A FOR block over a count** `n` is the loop over `_0_ … _n-1_`; zero repeats nothing. -/
+theorem C17_for_block_count (fd ut : List (Str × Str)) (ws raw : Str) (body : List Spec.BItem) (h : CountOK ws raw body) :
+    forExpand (body.map Spec.BItem.render) raw =
+      (Spec.expandLoop fd ut (.count raw) body).map (fun bs => bs.map Spec.BItem.render) :=
+  forExpand_count fd ut ws raw body h
+
+theorem C17_for_values (raw : Str) (h : Clean raw) : ForValuesOK raw := forValues_of_clean raw h
+
+/-- **The user-tag pass over a file with FOR blocks**: lines and conditionals as before; a FOR block with a literal
+    parameter keeps its opening and closing line, its body lines go through the user-tag rule. -/
+theorem C17_user_pass_with_loops (dict : List (Str × Str)) (isStr : Str → Bool) (fd : List (Str × Str))
+    (items : List Spec.Item) (h : ∀ it ∈ items, UItemOK2 dict fd it) :
+    doUserTags dict isStr fd (Spec.renderFile items) = some (Spec.renderFile (items.flatMap (userItemOut dict))) :=
+  doUserTags_items2 dict isStr fd items h
+
+/-- **`do_for` over a file**: every FOR block replaced in place by the lines of its loop, the rest untouched. -/
+theorem C17_for_pass (items : List Spec.Item) (h : ∀ it ∈ items, ForFileItemOK it) :
+    doFor (Spec.renderFile items) = some (Spec.renderFile (items.flatMap forOut)) := doFor_items items h
+
+/-- **A loaded template file through second filtering, user-tag pass and FOR expansion.** -/
+theorem C17_file_pipeline (env : Env) (ht : EnvTotal env) (m : Spec.Model) (dict : List (Str × Str)) (isStr : Str → Bool)
+    (fd : List (Str × Str)) (items : List Spec.Item) (h : FileOK m dict fd items) :
+    ((expandSecond env (toSm m) (Spec.renderFile items)).bind (doUserTags dict isStr fd)).bind doFor =
+      some (Spec.renderFile (fileOut m dict items)) := file_pipeline env ht m dict isStr fd items h
+
+/-- … after which only lines are left -/
+theorem C17_only_lines_left (m : Spec.Model) (dict : List (Str × Str)) (items : List Spec.Item) :
+    ∀ it ∈ fileOut m dict items, match it with | .b _ => True | .loop _ (.userTag _ _) _ => True | _ => False :=
+  fileOut_lines m dict items
+
+/-- **The front half of the generator.**  For every model, every dictionary of global tags, every file-name
+    replacement, every assignment of user tags and every list of template files inside the grammar (`GenOK`,
+    decidable: `genOKB_sound`), `CStateMachineGenerator`'s expansion up to the code model handed to the
+    preservation pass yields, per template file, the renamed file with: every global tag replaced by its
+    value; `STATE_0` by the initial state; every per-element block and the nested transition block replaced in
+    place by its expansion (C16); every conditional resolved and every user tag given its value / default /
+    left verbatim; every FOR block over a literal list or count unrolled; everything else as written. -/
+theorem C17_generate (env : Env) (ht : EnvTotal env) (m : Spec.Model) (chain fnDict userTags : List (Str × Str))
+    (isStr : Str → Bool) (files : List TFile) (h : GenOK m chain userTags files) :
+    generate env { dict := toPat chain, fnDict := fnDict, sm := toSm m, userTags := userTags, userTagIsStr := isStr }
+        (files.map (fun f => (f.name, Spec.renderFile f.items))) =
+      some (files.map (fun f => (fileName fnDict f.name, Spec.renderFile (fileOut m userTags (loaded chain f))))) :=
+  generate_files env ht m chain fnDict userTags isStr files h
+
 /-! non-vacuity: a block with an assigned ELSEIF, an unassigned IF, defaults and verbatim tags -/
 section Example
 def exDict : List (Str × Str) := [(T "B", T "7"), (T "V", [])]
@@ -152,6 +219,38 @@ example : forExpand exFor (T " fee, fie ,foe,") =
     some [T "first fee\n", T " v_fee = 0a;\n", T " v_fie = 1b;\n", T " v_foe = 2c;\n", T "last foe\n"] := by decide
 example : forExpand exFor (T "2") = some [T "first _0_\n", T " v__0_ = 0a;\n", T " v__1_ = 1b;\n", T "last _1_\n"] := by decide
 example : forExpand exFor (T "0") = some [] ∧ forExpand exFor (T "word") = none := by decide
+
+/-! non-vacuity of `C17_generate`: two template files with global tags, a state block, a conditional, two FOR
+    blocks, user tags with and without default, and the nested transition block of C16's example -/
+def exChain : List (Str × Str) := [(T "CLASSNAME", T "Door"), (T "NAMESPACE", T "App")]
+def exUser : List (Str × Str) := [(T "Verbose", T "1")]
+def exFileA : TFile :=
+  { name := T "TEMPLATEMachine.h",
+    items :=
+      [ .b (.line [.lit (T "class "), .tag (T "CLASSNAME") none, .lit (T " { // starts in "), .tag (T "STATE_0") none]),
+        .block .ps (T "  ") [.line [.lit (T "  void "), .tag (T "STATENAME") none, .lit (T "_entry();")]],
+        .cond (T "") [(T "Verbose", [.line [.lit (T "  bool verbose = "), .tag (T "Verbose") none, .lit (T ";")]])]
+              (some [.line [.lit (T "  // quiet")]]),
+        .loop (T "  ") (.list (T "a, b")) [.line [.lit (T "  int "), .tag (T "EACH") none, .lit (T "_"), .tag (T "NUM") none, .lit (T ";")]],
+        .loop (T "") (.count (T "2")) [.line [.lit (T "  slot("), .tag (T "EACH") none, .lit (T ");")]],
+        .b (.line [.lit (T "}; // "), .tag (T "Level") (some (T "3")), .lit (T " "), .tag (T "Unknown") none]) ] }
+def exFileB : TFile :=
+  { name := T "TEMPLATENotes.txt",
+    items := [ .b (.line [.lit (T "notes for "), .tag (T "NAMESPACE") none]), .pst (T "") C16.exPst ] }
+set_option maxRecDepth 1000000 in
+example : GenOK C16.exModel exChain exUser [exFileA, exFileB] := genOKB_sound _ _ _ _ (by decide)
+set_option maxRecDepth 1000000 in
+example : generate C16.exEnv { dict := toPat exChain, fnDict := fnDictOf (T "Door"), sm := toSm C16.exModel, userTags := exUser,
+                               userTagIsStr := fun _ => true }
+      ([exFileA, exFileB].map (fun f => (f.name, Spec.renderFile f.items))) =
+    some [ (T "DoorMachine.h",
+             [T "class Door { // starts in Idle\n", T "  void Idle_entry();\n", T "  void Run_entry();\n", T "  bool verbose = 1;\n",
+              T "  int a_0;\n", T "  int b_1;\n", T "  slot(_0_);\n", T "  slot(_1_);\n", T "}; // 3 <<<Unknown>>>\n"]),
+           (T "DoorNotes.txt",
+             [T "notes for App\n", T "state Idle\n", T " on Go in idle\n", T "  if (IsReady()) {\n", T "    Start\n",
+              T "    next = Run;\n", T "  \n", T "  done\n", T "    /* nothing to do */\n", T "  \n", T "  done\n",
+              T " on Off in idle\n", T "    /* nothing to do */\n", T "    next = Run;\n", T "  \n", T "  done\n", T "state Run\n"]) ] := by
+  decide
 end Example
 
 end KojenVerif.C17
